@@ -495,13 +495,18 @@ def field_case(rng):
     """a checksum-consistent field corruption (field_fault) of a tar / gz / lz4 / xz around valid content of every kind"""
     for _ in range(20):
         name, content, kind, cont, stored = valid_base(rng)
-        if cont == "plain" or cont == "bz2":
+        if cont == "plain":
             continue
-        r = field_fault(rng, cont, stored, content)
-        if r is None:
-            continue
-        data, fdesc = r
-        fdesc.update({"fault": "field_with_valid_checksum", "of": len(stored), "base_kind": kind, "base_container": cont})
+        if cont != "tar" and (cont == "bz2" or rng.random() < 0.35):
+            # bytes after a valid stream: second member, the file twice, padding, a stray length
+            data, fdesc = structured_tail(rng, stored, content, cont)
+            fdesc.update({"fault": "structured_tail", "of": len(stored), "base_kind": kind, "base_container": cont})
+        else:
+            r = field_fault(rng, cont, stored, content)
+            if r is None:
+                continue
+            data, fdesc = r
+            fdesc.update({"fault": "field_with_valid_checksum", "of": len(stored), "base_kind": kind, "base_container": cont})
         files = [core.FileSpec(name, data, 1600000000)]
         valids = []
         if rng.random() < 0.4:
